@@ -8,24 +8,60 @@ package settlement
 
 //@ func (*Result).AddPot(r, total, levels)
 //@   trusted
-//@   requires r != nil
+//@   requires PLAYERSOK(r)
 //@   modifies @SETTLE
 //@   allocs
-
-//@ func (*Result).AddPlayer(r, playerIdx, bankroll)
-//@   trusted
-//@   requires r != nil
-//@   modifies @SETTLE
-//@   allocs
+//@   ensures PLAYERSOK(r)
 
 //@ func (*Result).UpdateScore(r, playerIdx, score)
 //@   trusted
-//@   requires r != nil
+//@   requires PLAYERSOK(r)
 //@   modifies @SETTLE
 //@   allocs
+//@   ensures PLAYERSOK(r)
 
 //@ func (*Result).Calculate(r)
 //@   trusted
-//@   requires r != nil
+//@   requires PLAYERSOK(r)
 //@   modifies @SETTLE
 //@   allocs
+//@   ensures PLAYERSOK(r)
+
+// ---------------------------------------------------------------------------
+// verified pieces of the settlement (C02 / C01): the per-player bookkeeping. The ranking and the per-level
+// distribution loops (Calculate*) are not under contract; their statement is covered by the bounded stand-in.
+// ---------------------------------------------------------------------------
+
+//@ pred PLAYERSOK(r) = r != nil && (forall k :: 0 <= k && k < len(r.Players) ==> r.Players[k] != nil)
+//@    && (forall a, b :: 0 <= a && a < b && b < len(r.Players) ==> r.Players[a] != r.Players[b])
+
+//@ func (*Result).AddPlayer(r, playerIdx, bankroll)
+//@   props C02 C01
+//@   requires PLAYERSOK(r)
+//@   modifies r.Players
+//@   allocs PlayerResult, elems(*PlayerResult)
+//@   ensures PLAYERSOK(r) && len(r.Players) == old(len(r.Players)) + 1
+//@   ensures [C01 C02] r.Players[old(len(r.Players))].Idx == playerIdx && r.Players[old(len(r.Players))].Final == bankroll
+//@             && r.Players[old(len(r.Players))].Changed == 0
+//@   ensures forall k :: 0 <= k && k < old(len(r.Players)) ==> r.Players[k] == old(r.Players[k])
+
+//@ func (*PotResult).UpdateWinner(pr, playerIdx, withdraw)
+//@   props C02
+//@   requires pr != nil && (forall k :: 0 <= k && k < len(pr.Winners) ==> pr.Winners[k] != nil)
+//@   modifies pr.Winners, Winner.Withdraw
+//@   allocs Winner, elems(*Winner)
+//@   ensures forall k :: 0 <= k && k < len(pr.Winners) ==> pr.Winners[k] != nil
+//@   loop 1 invariant forall k :: 0 <= k && k <= rangeindex ==> pr.Winners[k].Idx != playerIdx
+
+//@ func (*Result).Update(r, potIdx, playerIdx, wager, withdraw)
+//@   props C02 C01
+//@   requires PLAYERSOK(r) && 0 <= potIdx && potIdx < len(r.Pots) && r.Pots[potIdx] != nil
+//@   requires forall k :: 0 <= k && k < len(r.Pots[potIdx].Winners) ==> r.Pots[potIdx].Winners[k] != nil
+//@   modifies PotResult.Winners, Winner.Withdraw, PlayerResult.Final, PlayerResult.Changed
+//@   allocs Winner, elems(*Winner)
+//@   -- every final stack stays its bankroll plus the recorded change; exactly one entry of that seat moves, by exactly the amount
+//@   ensures [C01 C02] forall k :: 0 <= k && k < len(r.Players) ==> r.Players[k].Final - r.Players[k].Changed == old(r.Players[k].Final - r.Players[k].Changed)
+//@   ensures [C02] forall k :: 0 <= k && k < len(r.Players) && r.Players[k].Idx != playerIdx ==> r.Players[k].Changed == old(r.Players[k].Changed)
+//@   ensures [C02] forall k :: 0 <= k && k < len(r.Players) && r.Players[k].Idx == playerIdx && (forall j :: 0 <= j && j < k ==> r.Players[j].Idx != playerIdx)
+//@             ==> r.Players[k].Changed == old(r.Players[k].Changed) + withdraw
+//@   loop 1 invariant forall k :: 0 <= k && k <= rangeindex ==> r.Players[k].Idx != playerIdx
